@@ -29,7 +29,7 @@ var verifC03JoinSrc = []string{
 var verifC03FilterSrc = []string{
 	"select id from a where k < @x",                                                       // 0
 	"select id, k from (select id, k from a where k >= @x) s where k < @y",                // 1
-	"select * from a",                                                                     // 2
+	"select A.* from a",                                                                   // 2: the qualifier in another letter case
 	"with c as (select id, k from a where k < @x) select id from c",                       // 3
 	"select k, id from a where not (k < @x)",                                              // 4
 	"select id from a where k < @x or k >= @y",                                            // 5
